@@ -680,7 +680,9 @@ impl From<ffi::CommandStatus> for CommandStatus {
             ffi::CommandStatus::BlockedOtherMaster => Self::BlockedOtherMaster,
             ffi::CommandStatus::DownstreamFail => Self::DownstreamFail,
             ffi::CommandStatus::NonParticipating => Self::NonParticipating,
-            ffi::CommandStatus::Unknown => Self::Unknown(0),
+            // 0 is the code of SUCCESS: an unknown status must not reach the master as success,
+            // 127 is the code that IEEE 1815 reserves for "undefined"
+            ffi::CommandStatus::Unknown => Self::Unknown(127),
         }
     }
 }
